@@ -414,6 +414,8 @@ fn c11_user(r: &mut Report, uc: &UCmd, before: &[String], after: &[String], live
         for o in &old {
             if let Some(i) = rest.iter().position(|x| x == o) {
                 rest.remove(i);
+            } else if matches!(o.kind, AuditKind::Violation { .. }) {
+                r.fail("oracle", "C11/violation-pruned", format!("`{lab}`: {n}: the violation entry {:?} (importable = {}) disappeared", o.kind, o.importable), case);
             } else if o.importable || !(is_target && matches!(uc, UCmd::CertifyFull { .. } | UCmd::CertifyDelta { .. } | UCmd::CertifyWildcard { .. } | UCmd::Trust { .. }) || prunes_all && !matches!(uc, UCmd::Prune { no_audits: true, .. })) {
                 r.fail("oracle", "C11/ucmd/local-audit-removed", format!("`{lab}`: {n}: {o:?} disappeared (importable audits are never pruned; non-importable ones only for the target crate)"), case);
             }
@@ -1110,6 +1112,14 @@ pub fn run(r: &mut Report) {
             let mut crng = Rng::new(1);
             exec_user_history(r, &mut d, &mut crng, 0, w, p, Some(fixed));
         }
+    }
+    if shard == 0 && only.is_none() && std::env::var("VERIF_PROBE_VIOLATION").is_ok() {
+        let (mut w, _) = corpus_certify_importable();
+        w.audits.audits.insert("bravo".into(), vec![AuditEntry { who: vec![], criteria: vec![gen::sp(SAFE_TO_RUN.to_owned())], kind: AuditKind::Violation { violation: VersionReq::parse("=9.0.0").unwrap() }, importable: false, notes: None, aggregated_from: vec![], is_fresh_import: false }]);
+        let p = cmd::setup_project(&w);
+        eprintln!("PROBE before:\n{}", p.files()[0]);
+        let (o, _) = p.run(&["prune"]);
+        eprintln!("PROBE prune -> {o:?}; after:\n{}", p.files()[0]);
     }
     if shard == 0 && only.is_none() {
         let v = |s: &str| VetVersion::parse(s).unwrap();
